@@ -33,10 +33,18 @@ def _load_census() -> dict[str, Any]:
 
 
 # --------------------------------------------------------------------------- constants
-def _const_value(node: ast.AST) -> ast.AST | None:
-    """literal AST for a module-level constant, or None"""
+def _const_value(node: ast.AST, names_ok: frozenset[str] | set[str] = frozenset()) -> ast.AST | None:
+    """literal AST for a module-level constant, or None.  names_ok: module-level names the tree already had (a tuple / frozenset may
+    list them next to literals: `frozenset({"\n", EOF})`)"""
     if isinstance(node, ast.Constant):
         return node
+    atom = lambda e: isinstance(e, ast.Constant) or (isinstance(e, ast.Name) and e.id in names_ok) or \
+        (isinstance(e, ast.Attribute) and isinstance(e.value, ast.Name) and e.value.id in names_ok and e.value.id[:1].isupper())  # Enum.member  # noqa: E731
+    if names_ok and isinstance(node, ast.Tuple) and node.elts and all(atom(e) for e in node.elts):
+        return node
+    if names_ok and isinstance(node, ast.Call) and dotted(node.func) in ("frozenset", "tuple") and len(node.args) == 1 and isinstance(node.args[0], (ast.Tuple, ast.List, ast.Set)) \
+            and node.args[0].elts and all(atom(e) for e in node.args[0].elts):
+        return ast.Tuple(list(node.args[0].elts), ast.Load())
     # only immutable values are propagated: a module-level list/dict/set is shared mutable state and must stay visible
     if isinstance(node, ast.Tuple) and all(isinstance(e, ast.Constant) for e in node.elts):
         return node
@@ -81,6 +89,29 @@ def _const_string(node: ast.AST) -> str | None:
             parts = [_const_string(e) for e in a0.elts]
             return "".join(parts) if all(p is not None for p in parts) else None  # type: ignore[arg-type]
     return None
+
+
+class _StringFold(ast.NodeTransformer):
+    """`string.hexdigits`, `"_" + string.ascii_letters`, ... -> the literal they denote"""
+
+    def __init__(self) -> None:
+        self.hits = 0
+
+    def visit_Attribute(self, node: ast.Attribute) -> ast.AST:
+        v = _const_string(node)
+        if v is not None:
+            self.hits += 1
+            return ast.copy_location(ast.Constant(v), node)
+        self.generic_visit(node)
+        return node
+
+    def visit_BinOp(self, node: ast.BinOp) -> ast.AST:
+        self.generic_visit(node)
+        if isinstance(node.op, ast.Add) and isinstance(node.left, ast.Constant) and isinstance(node.right, ast.Constant) \
+                and isinstance(node.left.value, str) and isinstance(node.right.value, str):
+            self.hits += 1
+            return ast.copy_location(ast.Constant(node.left.value + node.right.value), node)
+        return node
 
 
 class _ConstProp(ast.NodeTransformer):
@@ -803,7 +834,7 @@ def normalize_repo(repo: Repo) -> dict[str, object]:
                 val = st.value  # type: ignore[attr-defined]
                 if consts:
                     val = _ConstProp(consts).visit(copy.deepcopy(val))
-                v = _const_value(val)
+                v = _const_value(val, known_globals | set(mi.imports))
                 if v is not None:
                     consts[name] = v
         # ---- new helpers
@@ -835,6 +866,8 @@ def normalize_repo(repo: Repo) -> dict[str, object]:
                 fn.node = cp.visit(fn.node)
                 if cp.hits:
                     report["propagated_constants"].append(f"{fn.where}: {cp.hits}")  # type: ignore[union-attr]
+            sf = _StringFold()
+            fn.node = sf.visit(fn.node)
             fn.node.body, n_gr = _get_then_raise(fn.node.body)
             if n_gr:
                 ast.fix_missing_locations(fn.node)
